@@ -12,10 +12,13 @@ META = dict(
           'TLC enumerates every small composition x every short request history (GEN) for execution by the real readers, the harness adds seeded '
           'random compositions (depth <= 3 over sections, multi, zero, limit, bit<->byte adapters, read-ahead cache, progress and context wrappers, '
           'real files) and histories of up to 14 calls, and TLC validates every recorded history. The read-ahead cache (AheadCache.tla, symbolic file bytes, pre-repair variant as witness) and '
-          'Read64/Write64 (ReadWrite64.tla, one disjunct per branch of the code, symbolic bits, all first bits x all widths 0..64) and the byte view (IOAdapter.tla: carry buffer, Seek, ReadByte, short-reading and end-refusing sources, pre-repair Seek as witness) are model checked as built.'),
-    note=('Exhaustive inside the GEN constants (evidence tlc_runs), random beyond. Denotations up to a few hundred bits per history. Short reads are '
+          'Read64/Write64 (ReadWrite64.tla, one disjunct per branch of the code, symbolic bits, all first bits x all widths 0..64) and the byte view (IOAdapter.tla: carry buffer, Seek, ReadByte, short-reading and end-refusing sources, pre-repair Seek as witness) are model checked as built.'
+          ' ReaderStack.tla transcribes IOBitReadSeeker / SectionReader / MultiReader / the zero reader / the ReadAtFull loop over symbolic bits, every call judged on its transition, '
+          'and PREDICTS every recorded call on such compositions exactly (drift = exit 2); BitBuffer.tla transcribes bitio.Buffer and is judged by the same queue requirement as '
+          'recorded Buffer histories; long streams (thousands of bits through the carry buffers) and sections reaching beyond their source are part of the random family.'),
+    note=('Exhaustive inside the GEN constants (evidence tlc_runs), random beyond. Denotations up to a few hundred bits per history (12 000 in the long-stream cases). Short reads are '
           'allowed by the requirement, so a reader that returns fewer bits without stalling is never an alarm.'),
-    technique='TLA+ denotational spec of reader terms (BitIO.tla): TLC-enumerated histories replayed on real bitio readers + TLC trace validation; AheadCache.tla MC',
+    technique='TLA+ denotational spec of reader terms (BitIO.tla): TLC-enumerated histories replayed on real bitio readers + TLC trace validation; as-built models AheadCache / ReadWrite64 / IOAdapter / ReaderStack / BitBuffer model checked, ReaderStack bound by exact prediction of recorded calls',
 )
 
 CFG = 'SPECIFICATION TSpec\nPOSTCONDITION Consumed\nCHECK_DEADLOCK FALSE\n'
